@@ -176,7 +176,11 @@ class _Proc:
         elif k == "seed":
             np.random.seed(int(op["s"]))
         elif k == "np_state":                                 # process-global NumPy settings other than the generator
-            np.set_printoptions(**op["print"])
+            pr = dict(op["print"])
+            fk = pr.pop("formatter_kind", None)
+            if fk:
+                pr["formatter"] = {fk: (lambda v: "<%s>" % (v,))}
+            np.set_printoptions(**pr)
             np.seterr(**op.get("err", {}))
         elif k == "pyrandom":
             pyrandom.seed(op.get("s"))
@@ -439,8 +443,11 @@ def gen_foreign_spec(rng, avoid_D=None):
 
 
 def gen_np_state(rng):
-    return dict(op="np_state", print=dict(linewidth=rng.choice([1, 1, 8, 200]), threshold=rng.choice([3, 1000]), precision=rng.choice([2, 8]),
-                                          edgeitems=rng.choice([1, 3])), err=dict(all=rng.choice(["ignore", "warn"])))
+    pr = dict(linewidth=rng.choice([1, 1, 8, 200, 75]), threshold=rng.choice([3, 1000]), precision=rng.choice([2, 8]),
+              edgeitems=rng.choice([1, 3]), sign=rng.choice(["-", "+", " "]))
+    if rng.random() < 0.3:
+        pr["formatter_kind"] = rng.choice(["int_kind", "all"])       # realised as a formatter function in the worker
+    return dict(op="np_state", print=pr, err=dict(all=rng.choice(["ignore", "warn"])))
 
 
 HISTORY_KINDS = ["none", "draws", "seed", "foreign_opt", "interleaved_construct", "same_twice", "mixed", "interleaved_opt",
